@@ -401,6 +401,9 @@ class Engine:
                     ctx.note_mut(recv)
                 return getattr(recv, name)(*args, **kwargs)
             if isinstance(recv, str) and name == "format":
+                if recv.count("{}") == 1 and len(args) == 1 and is_z3(args[0]) and z3.is_int(args[0]) and "{" not in recv.replace("{}", ""):
+                    pre, post = recv.split("{}")
+                    return z3.Concat(z3.StringVal(pre), z3.IntToStr(args[0]), z3.StringVal(post)) if (pre or post) else z3.IntToStr(args[0])
                 return "<formatted>"
             if isinstance(recv, list) and name in ("append", "extend", "insert"):
                 ctx.note_mut(recv)
@@ -479,6 +482,8 @@ class Engine:
             if args or kwargs:
                 raise Unsupported("dict(...) with arguments")
             return {}
+        if fn is collections.defaultdict:
+            return {}  # a contract `var_kinds` entry must give the variable its symbolic kind
         if fn is set:
             if not args:
                 return set()
@@ -809,6 +814,13 @@ class Engine:
         mutated |= set(spec.modifies)
         havocked_ids = set()
         start_serial = next(_creation)
+        pre_py = set()
+        f_ = fr
+        while f_ is not None:
+            for v_ in f_.locals.values():
+                if isinstance(v_, (list, dict, set)):
+                    pre_py.add(id(v_))
+            f_ = f_.parent
         for nm in sorted(names | mutated):
             try:
                 cur = fr.lookup(nm)
@@ -867,6 +879,8 @@ class Engine:
             finally:
                 ctx.track_mut = False
             for oid, o in ctx.mut_objs.items():
+                if isinstance(o, (list, dict, set)) and oid not in pre_py:
+                    continue  # a python container created inside this iteration
                 if oid not in havocked_ids and getattr(o, "_pyvc_serial", 0) < start_serial \
                         and not getattr(o, "pyvc_mut_ok", False):
                     raise Unsupported(f"{tag}: body mutates {o!r}, which the loop havoc did not cover")
